@@ -440,6 +440,10 @@ func (p *parser) parseStep(n node) (opnd node) {
 
 // Expr ::= '(' Step ("," Step)* ')'
 func (p *parser) parseSequence(n node) (opnd node) {
+	// parseStep and parseSequence call each other: count the nesting like parseExpression does.
+	if p.d = p.d + 1; p.d > 200 {
+		panic("the xpath query is too complex(depth > 200)")
+	}
 	p.skipItem(itemLParens)
 	opnd = p.parseStep(n)
 	for {
@@ -451,6 +455,7 @@ func (p *parser) parseSequence(n node) (opnd node) {
 		opnd = newOperatorNode("|", opnd, opnd2)
 	}
 	p.skipItem(itemRParens)
+	p.d--
 	return opnd
 }
 
